@@ -16499,7 +16499,7 @@ let tcp_event s =
      | [] -> Delivered ([], true)
      | rest :: _ ->
        let k = num_of ty N0 in
-       if N.eqb k (Npos (XI XH))
+       if (||) (N.eqb k (Npos (XI XH))) (N.eqb k (Npos (XO (XO (XO XH)))))
        then Refused
        else Delivered ((seg_bytes rest),
               (negb
@@ -16538,6 +16538,74 @@ let run_t o body =
         true, false)), (String ((Ascii (true, false, false, true, false,
         true, true, false)), (String ((Ascii (true, true, false, false,
         false, true, true, false)), EmptyString))))))))))), []))
+
+(** val dump_disp : opts -> z -> table -> bytes **)
+
+let dump_disp o now t =
+  join ((Npos (XO (XO (XI (XI (XI (XI XH))))))) :: [])
+    (map (fun pat ->
+      let (k, r) = pat in
+      app
+        (kv (String ((Ascii (true, true, false, true, false, true, true,
+          false)), (String ((Ascii (true, false, true, false, false, true,
+          true, false)), (String ((Ascii (true, false, false, true, true,
+          true, true, false)), EmptyString)))))) (hex6 k))
+        (kv (String ((Ascii (false, false, true, false, false, true, true,
+          false)), (String ((Ascii (true, false, false, true, false, true,
+          true, false)), (String ((Ascii (true, true, false, false, true,
+          true, true, false)), (String ((Ascii (false, false, false, false,
+          true, true, true, false)), EmptyString))))))))
+          (map (fun c ->
+            if N.eqb c (Npos (XO (XO (XO (XO (XO XH))))))
+            then Npos (XI (XI (XI (XI (XI (XO XH))))))
+            else c)
+            (render_row o now (fun _ ->
+              str (String ((Ascii (true, true, true, true, true, true, false,
+                false)), (String ((Ascii (true, true, true, true, true, true,
+                false, false)), (String ((Ascii (true, true, true, true,
+                true, true, false, false)), (String ((Ascii (true, true,
+                true, true, true, true, false, false)), (String ((Ascii
+                (true, true, true, true, true, true, false, false)),
+                EmptyString))))))))))) r)))) (sort_table t))
+
+(** val run_segs_d :
+    opts -> table -> bytes list -> bytes list -> bool * bytes list **)
+
+let rec run_segs_d o t segs acc =
+  match segs with
+  | [] -> (true, (rev_append acc []))
+  | s :: rest ->
+    (match s with
+     | [] -> run_segs_d o t rest acc
+     | _ :: _ ->
+       (match split_on (Npos (XO (XI (XO (XI (XI XH)))))) s [] with
+        | [] -> run_segs_d o t rest acc
+        | ts :: l ->
+          (match l with
+           | [] -> run_segs_d o t rest acc
+           | body :: _ ->
+             let now = parse_z ts in
+             (match read_lines o now t (seg_bytes body) with
+              | Ok t' -> run_segs_d o t' rest ((dump_disp o now t') :: acc)
+              | Panic _ -> (false, (rev_append acc []))))))
+
+(** val run_d : opts -> bytes -> bytes * bytes **)
+
+let run_d o body =
+  let (ok, ds) =
+    run_segs_d o [] (split (Npos (XI (XI (XO (XI (XI XH)))))) body) []
+  in
+  ((if ok
+    then str (String ((Ascii (true, true, true, true, false, true, true,
+           false)), (String ((Ascii (true, true, false, true, false, true,
+           true, false)), EmptyString))))
+    else str (String ((Ascii (false, false, false, false, true, true, true,
+           false)), (String ((Ascii (true, false, false, false, false, true,
+           true, false)), (String ((Ascii (false, true, true, true, false,
+           true, true, false)), (String ((Ascii (true, false, false, true,
+           false, true, true, false)), (String ((Ascii (true, true, false,
+           false, false, true, true, false)), EmptyString))))))))))),
+  (join ((Npos (XI (XI (XO (XO (XO XH)))))) :: []) ds))
 
 (** val run_case2 : bytes -> bytes **)
 
@@ -16619,7 +16687,26 @@ let run_case2 line =
                                          | _ :: _ -> run_case line)
                                       | _ -> run_case line)
                                    | _ -> run_case line)
-                                | _ -> run_case line)
+                                | XO p4 ->
+                                  (match p4 with
+                                   | XO p5 ->
+                                     (match p5 with
+                                      | XH ->
+                                        (match l2 with
+                                         | [] ->
+                                           let (oc, obs) =
+                                             run_d (parse_opts os) body
+                                           in
+                                           app id0
+                                             (app ((Npos (XI (XO (XO
+                                               XH)))) :: [])
+                                               (app oc
+                                                 (app ((Npos (XI (XO (XO
+                                                   XH)))) :: []) obs)))
+                                         | _ :: _ -> run_case line)
+                                      | _ -> run_case line)
+                                   | _ -> run_case line)
+                                | XH -> run_case line)
                              | _ -> run_case line)
                           | _ -> run_case line)
                        | _ -> run_case line)
